@@ -914,7 +914,7 @@ func (ex *Exec) builtin(st *State, c *ssa.Call, bi *ssa.Builtin) {
 			mt := args[0].Type().Underlying().(*types.Map)
 			_, _, l := st.mapFamsT(mt)
 			r := st.sc.fresh("maplen", SInt)
-			st.sc.assert(eq(r, ite(eq(x, intLit(0)), intLit(0), st.readFam(st.heap, l, x))))
+			st.sc.assert(eq(r, st.readFam(st.heap, l, x)))
 			st.sc.assert(le(intLit(0), r))
 			st.vals[c] = r
 		default:
@@ -959,7 +959,7 @@ func (ex *Exec) builtin(st *State, c *ssa.Call, bi *ssa.Builtin) {
 		d, vf, l := st.mapFamsT(mt)
 		_ = vf
 		ex.frameCheck(st, fmt.Sprintf("frame/delete#%d", ord), c.Pos(), args[0], []frameTarget{{Fam: d.Name, Obj: m}, {Fam: l.Name, Obj: m}})
-		was := and(neq(m, intLit(0)), st.readFam(st.heap, d, m, k))
+		was := st.readFam(st.heap, d, m, k)
 		oldLen := st.readFam(st.heap, l, m)
 		st.writeFam(l, []Term{m}, ite(was, sub(oldLen, intLit(1)), oldLen))
 		st.updateFamWhere(d, func(p []Term) Term { return and(neq(m, intLit(0)), eq(p[0], m), eq(p[1], k)) }, func(p []Term) Term { return tFalse })
